@@ -177,6 +177,47 @@ def run(ctx):
                 s2.violate(inp, (how, "second.s", pos, stmt), rep, "the second source's error is reported as another kind of failure (or not located)")
             elif rep[1] != "second.s" or rep[2] != pos or rep[4] != stmt or (how == "scan" and rep[3] != col):
                 s2.violate(inp, ("second.s", pos, col if how == "scan" else None, stmt), rep[1:], "reported file / line / column / quoted line differ from the erroneous statement of the second source")
+        # two sources of the same name in one process: an error of the first, raised and rendered after the second was
+        # scanned under that name, still quotes the first source's own line
+        s2b = core.Stream("S4-same-name-sources", "two different sources given the same file name in one process (two Programs): the first is parsed, then the second is parsed, then the first is resolved and emitted and fails on a statement that can only fail then (undefined name, .text without table): the NodeError, rendered after the second scan, names the line of the first source and quotes its text")
+        node_errs = [e for e in ERRS if e[3] == "node" and "\n" not in e[1]]
+        for i in range(16 if tier == "quick" else 160):
+            kind, stmt, col, how = rng.choice(node_errs)
+            pre = ["; c"] * rng.randrange(0, 7) + ["*=0x028000"] + ["nop"] * rng.randrange(0, 5)
+            first = "\n".join(pre + [stmt, "rts"]) + "\n"
+            pos = len(pre)
+            other = "\n".join(["; other"] * rng.randrange(0, pos + 4) + ["*=0x008000", "sep #0x20"] + ["inx"] * rng.randrange(0, 3)) + "\n"
+            name = rng.choice(["patch.s", "memory.s", "main.s"])
+            res = {"status": "ok", "exc": None, "error": None}
+            try:
+                with impl.quiet(), core.watchdog(20):
+                    pa, pb = Program(), Program()
+                    ea, na = pa.parser.parse(first, name)
+                    eb, nb = pb.parser.parse(other, name)
+                    if ea is not None or eb is not None:
+                        s2b.count("parse-failed:no-claim")
+                        continue
+                    pb.resolve_labels(nb)
+                    pb.emit(nb, impl.CollectWriter())
+                    pa.resolve_labels(na)
+                    pa.emit(na, impl.CollectWriter())
+            except core.Timeout:
+                continue
+            except BaseException as e:  # noqa: BLE001
+                try:
+                    txt = str(e)[:300]
+                except BaseException as e2:  # noqa: BLE001
+                    txt = "rendering the error raised " + type(e2).__name__
+                res = {"status": "rejected", "exc": type(e).__name__, "error": txt}
+            rep = real_report(res)
+            s2b.cases += 1
+            s2b.nontrivial.add((kind, pos, name))
+            s2b.count(rep[0] if rep else "assembled")
+            inp = {"first": first, "second": other, "name": name, "inserted": stmt, "at_line": pos, "api": "parse(first); parse(second); resolve+emit(second); resolve+emit(first)"}
+            if rep is None:
+                s2b.violate(inp, "an error located in the first source", "assembled", "the erroneous first source is assembled")
+            elif rep[0] != "node" or rep[1] != name or rep[2] != pos or rep[4] != stmt:
+                s2b.violate(inp, ("node", name, pos, stmt), rep, "an error of the first source, rendered after a second source of the same name was scanned, does not name the first source's line / quote its text")
         # the file API: what is reported refers to the file as it is on disk (leading blank lines, indentation kept)
         s3 = core.Stream("S4-file-api", "sources written to disk with leading blank lines / indentation / trailing blanks and assembled with Program.assemble_as_patch: the logged error names the file, the zero-based line of the erroneous statement, its column and its text")
         import logging
@@ -286,6 +327,6 @@ def run(ctx):
             elif not str(rep[1]).endswith(name) or rep[2] != pos or rep[4] != stmt or (how == "scan" and rep[3] != col):
                 s4.violate(inp, (name, pos, col if how == "scan" else None, stmt), rep[1:], "file / line / column / quoted text reported by the command line differ from the statement in the user's file")
         s4.sample({"command": "x816 cli_zq_0.s -D dz0=1 dz1=2"})
-        return [s, s2, s3, s4, s5]
+        return [s, s2, s2b, s3, s4, s5]
     finally:
         run_.close()
